@@ -625,6 +625,11 @@ def _hidden_randomness(model, rep):
                                 isinstance(kk, ast.Constant)
                                 and kk.value == kw for kk in x.keys):
                             given = True
+            # or set into the parameter dictionary beforehand
+            # (params['v0'] = ..., params.setdefault('v0', ...))
+            if any(isinstance(x, ast.Constant) and x.value == kw
+                   for x in ast.walk(fn.node)):
+                given = True
             q = fn.short()
             cons = f"{q}:{d.rsplit('.', 1)[1]}:start-vector"
             if given:
@@ -721,6 +726,18 @@ def _uninitialised(model, rep):
                             isinstance(x, ast.Name) and x.id in names
                             and x.id != a_ for x in ast.walk(d.value)):
                         compl = True
+            # a boolean mask and its negation: N[:, m] = ..; N[:, ~m] = ..
+            inv = set()
+            for st in stores:
+                tgt = st.targets[0] if isinstance(st, ast.Assign) \
+                    else st.target
+                for x in ast.walk(tgt.slice):
+                    if isinstance(x, ast.UnaryOp) and isinstance(
+                            x.op, ast.Invert) and isinstance(
+                            x.operand, ast.Name):
+                        inv.add(x.operand.id)
+            if inv & names:
+                compl = True
             if not dd or compl:
                 rep.ok(R6, cons, "every entry is written (integer / loop / "
                        "slice indices" + (", complementary index sets)"
@@ -1067,6 +1084,12 @@ MUTANTS = [
       "Optional[ndarray]:\n"), "C15-R5"),
 ]
 TWINS = [
+    ("eigensolver start vector set into the parameter dictionary",
+     (_U, "        return eigsh(K, M=M, **{'v0': np.ones(K.shape[0]),\n"
+      "                                **params, **solve_time_kwargs})",
+      "        opts = {**params, **solve_time_kwargs}\n"
+      "        opts.setdefault('v0', np.ones(K.shape[0]))\n"
+      "        return eigsh(K, M=M, **opts)")),
     ("direct solver always copies its operand",
      (_U, "        if not A.has_canonical_format:\n            A = A.copy()  "
       "# spsolve sorts the indices of its operand in place\n",
